@@ -661,7 +661,7 @@ func (x *Exec) havocTargets(fr *Frame, st *State, nodes ...ast.Node) {
 		if strings.HasPrefix(k, "G:") {
 			g := x.contracts().GhostIdx[k[2:]]
 			if g != nil {
-				st.store[k] = Scalar(Fresh("havoc.ghost."+g.Name, g.Sort), nil)
+				st.store[k] = x.ghostShape(g, "havoc.ghost."+g.Name, true)
 			}
 			continue
 		}
